@@ -595,6 +595,10 @@ class C12(L1Prop):
             for age in sorted(set(x for x in [d - 1, d, (3 * d) // 2 - 1, (3 * d) // 2, 2 * d, 0] if 0 <= x <= 200000)):
                 for margin in (-3600, 3600):
                     ops += ["as 1 latest:1 b:8", f"backdate 1 {age * 86400 + margin}", "setcounter 1 0", "dump 1", "av 1 latest:1 b:4", "dump 1"]
+            # a snapshot stamped AHEAD of the server's clock (the clock was corrected, the database moved
+            # to another host) is not old: its age is below every non-negative target
+            for ahead in sorted(set(x for x in [1, d, (3 * d) // 2, 2 * d + 1, 21, 30] if 0 < x <= 200000)):
+                ops += ["as 1 latest:1 b:8", f"backdate 1 {-(ahead * 86400 + 3600)}", "setcounter 1 0", "dump 1", "av 1 latest:1 b:4", "dump 1"]
             out.append(Case(f"c12-grid-{k}", ops, {"cfg": [d, v]})); k += 1
         # the same through the HTTP entry point: the targets given to WebServer::new must be the ones
         # the urgency is computed from (0 and 1 included)
@@ -609,6 +613,9 @@ class C12(L1Prop):
             ops += ["setcounter 1 0"]
             for age in sorted(set(x for x in [0, d - 1, d, (3 * d) // 2 - 1, (3 * d) // 2] if 0 <= x <= 200000)):
                 ops += ["http POST as hyph=latest:1 hyph=1 snapshot b:8", f"backdate 1 {age * 86400 + 3600}", "setcounter 1 0",
+                        "dump 1", "http POST av hyph=latest:1 hyph=1 history b:4", "dump 1"]
+            for ahead in sorted(set(x for x in [1, d, (3 * d) // 2, 21] if 0 < x <= 200000)):
+                ops += ["http POST as hyph=latest:1 hyph=1 snapshot b:8", f"backdate 1 {-(ahead * 86400 + 3600)}", "setcounter 1 0",
                         "dump 1", "http POST av hyph=latest:1 hyph=1 history b:4", "dump 1"]
             out.append(Case(f"c12-http-{k}", ops, {"cfg": [d, v], "http": True}, mode="http")); k += 1
         # counters produced by real histories, default and small targets
@@ -1429,6 +1436,18 @@ class C18(L1Prop):
                                              ("clients", "UPDATE", f"as 1 latest:1 b:8,{j}")])
                 ops += ["dumpall", "rows", f"sqlfault {tbl} {stmt} 2", req, "dumpall", "rows", f"av 1 latest:1 b:3,{j}"]
             out.append(Case(f"c18-sqlfault-{k}", ["dumpall", "rows"] + ops, {"only": "sqlite", "faults": True}))
+        # a request refused because a storage call failed — at ANY call the request makes, however many it
+        # makes — leaves nothing behind (no plan fails the commit AFTER it took effect: that is the lost
+        # acknowledgement of C05, not a refusal)
+        for k in range(sizes(tier, 6, 40)):
+            n = rng.randint(1, 4)
+            ops = ["ensure 1", "ensure 2", "av 2 nil b:2"] + [f"av 1 {'nil' if i == 0 else 'latest:1'} b:1,{i}" for i in range(n)]
+            if k % 2:
+                ops.append("as 1 latest:1 b:9")
+            for idx in range(0, 9):
+                req = [f"av 1 latest:1 b:6,{idx}", f"as 1 latest:1 b:8,{idx}", "gcv 1 nil", f"av 1 nil b:7,{idx}", "gs 1"][(k + idx) % 5]
+                ops += ["dumpall", "rows", f"fault {idx}:before", req, "dumpall", "rows"]
+            out.append(Case(f"c18-fault-{k}", ["dumpall", "rows"] + ops, {"only": "sqlite", "faults": True}))
         from .props_http import refusal_cases
         out += refusal_cases(rng, sizes(tier, 6, 60))
         return out
